@@ -60,7 +60,12 @@ type CaseSpec struct {
 	// DropMid > 0: the server drops the connection while that many requests are
 	// pending (the first of them after a timeout pre-response when DropMidPre);
 	// Close is not called: each must complete exactly once by its deadline
-	DropMid    int  `json:"dropmid,omitempty"`
+	DropMid int `json:"dropmid,omitempty"`
+	// LossClose > 0: that many replies sit in the adapter's buffer (the listener
+	// is held in an event callback) when the server drops the connection; the
+	// closed handler's user calls Close, as the gateway does; the listener is
+	// released. Nothing may crash and no request may complete twice.
+	LossClose  int  `json:"lossclose,omitempty"`
 	DropMidPre bool `json:"dropmidpre,omitempty"`
 	SubLen     int  `json:"sublen,omitempty"` // length of a long namespace to Subscribe to (0 = none)
 	// BusyUnsub > 0: that many events are queued inside the adapter behind a
@@ -114,10 +119,17 @@ func runCase(cs CaseSpec) (viols []string, classes map[string]int) {
 	states := make([]*reqState, len(cs.Reqs))
 	bySubj := map[string]*reqState{}
 	var smu sync.Mutex
+	var lcReplies []string
 	srv.OnPub = func(p Pub) {
 		smu.Lock()
 		st := bySubj[p.Subject]
 		smu.Unlock()
+		if strings.HasPrefix(p.Subject, "call.t.lc") && p.Reply != "" {
+			smu.Lock()
+			lcReplies = append(lcReplies, p.Reply)
+			smu.Unlock()
+			return
+		}
 		if cs.DropMidPre && p.Subject == "call.t.drop0.x" && p.Reply != "" {
 			srv.Publish(p.Reply, []byte(fmt.Sprintf(`timeout:"%d"`, preExtend)))
 		}
@@ -203,6 +215,10 @@ func runCase(cs CaseSpec) (viols []string, classes map[string]int) {
 		if fitsForSure && err != nil {
 			viols = append(viols, fmt.Sprintf("Subscribe with a namespace of %d bytes fits a control line but returned %v", len(ns), err))
 		}
+	}
+	if cs.LossClose > 0 {
+		classes["loss_then_close_with_replies_buffered"]++
+		return append(viols, lossThenClose(srv, cl, closedCh, cs.LossClose, &smu, &lcReplies)...), classes
 	}
 	if cs.DropMid > 0 {
 		classes["drop_with_requests_pending"]++
@@ -484,6 +500,93 @@ func dropMidFlight(srv *Server, cl *resnats.Client, closedCh chan error, n int, 
 	return viols
 }
 
+// lossThenClose: see CaseSpec.LossClose.
+func lossThenClose(srv *Server, cl *resnats.Client, closedCh chan error, n int, smu *sync.Mutex, replies *[]string) (viols []string) {
+	entered, release := make(chan struct{}, 1), make(chan struct{})
+	if _, err := cl.Subscribe("event.blk", func(string, []byte, error) {
+		select {
+		case entered <- struct{}{}:
+		default:
+		}
+		<-release
+	}); err != nil {
+		return []string{"Subscribe(event.blk) failed: " + err.Error()}
+	}
+	var mu sync.Mutex
+	comps := make([]int, n)
+	for i := 0; i < n; i++ {
+		i := i
+		cl.SendRequest(fmt.Sprintf("call.t.lc%d.x", i), []byte(`{}`), func(string, []byte, error) {
+			mu.Lock()
+			comps[i]++
+			mu.Unlock()
+		})
+	}
+	for w := time.Now(); time.Since(w) < 2*time.Second; {
+		smu.Lock()
+		got := len(*replies)
+		smu.Unlock()
+		_, subs, _, _, _ := srv.Snapshot()
+		seen := false
+		for _, x := range subs {
+			if x == "event.blk.*" {
+				seen = true
+			}
+		}
+		if got >= n && seen {
+			break
+		}
+		time.Sleep(time.Millisecond)
+	}
+	srv.Publish("event.blk.go", []byte("1"))
+	select {
+	case <-entered:
+	case <-time.After(2 * time.Second):
+		close(release)
+		return []string{"INCONCLUSIVE the blocking callback was not entered"}
+	}
+	smu.Lock()
+	rs := append([]string(nil), (*replies)...)
+	smu.Unlock()
+	for _, r := range rs {
+		srv.Publish(r, []byte(`{"result":"late"}`))
+	}
+	if !srv.Barrier(2 * time.Second) {
+		close(release)
+		return []string{"INCONCLUSIVE barrier"}
+	}
+	srv.Drop()
+	select {
+	case <-closedCh:
+	case <-time.After(3 * time.Second):
+		viols = append(viols, "the server connection was dropped but the closed handler was not invoked within 3s")
+	}
+	// Close waits for the listener, which is held in the callback: it is called
+	// from its own goroutine (it has done its bookkeeping by the time the
+	// listener is released)
+	closed := make(chan struct{})
+	go func() {
+		cl.Close()
+		close(closed)
+	}()
+	time.Sleep(30 * time.Millisecond)
+	close(release)
+	select {
+	case <-closed:
+	case <-time.After(3 * time.Second):
+		viols = append(viols, "Close did not return within 3s of the listener being released")
+	}
+	time.Sleep(100 * time.Millisecond)
+	mu.Lock()
+	defer mu.Unlock()
+	for i, c := range comps {
+		if c > 1 {
+			viols = append(viols, fmt.Sprintf("request %d completed %d times across a lost connection and Close", i, c))
+		}
+	}
+	return viols
+}
+
 // busyUnsubscribe: the listener is held inside a callback while n events for
 // another subscription arrive and queue up in the adapter; that subscription is
 // unsubscribed; the listener is released. At most one event (one the listener
@@ -605,6 +708,9 @@ func genCase(t *rapid.T) CaseSpec {
 		cs.BusyUnsub = rapid.IntRange(1, 20).Draw(t, "nqueued")
 	}
 	cs.Drop = rapid.IntRange(0, 2).Draw(t, "drop") == 0
+	if rapid.IntRange(0, 9).Draw(t, "lossclose") == 0 {
+		cs.LossClose = rapid.IntRange(1, 4).Draw(t, "lossclosen")
+	}
 	if rapid.IntRange(0, 7).Draw(t, "dropmid") == 0 {
 		cs.DropMid = rapid.IntRange(1, 5).Draw(t, "dropmidn")
 		cs.DropMidPre = rapid.Bool().Draw(t, "dropmidpre")
@@ -623,7 +729,18 @@ func TestAdapter(t *testing.T) {
 	defer env.Write()
 	rapid.Check(t, func(rt *rapid.T) {
 		cs := genCase(rt)
+		// the case in progress, for the driver to attribute a crash of the process
+		cur := ""
+		if *flagOut != "" {
+			os.MkdirAll(*flagOut, 0o755)
+			cur = fmt.Sprintf("%s/current-%d.json", *flagOut, *flagShard)
+			cb, _ := json.MarshalIndent(map[string]interface{}{"property": "C18", "engine": "natsrig", "class": "crash", "message": "the process crashed while this case ran", "case": cs}, "", " ")
+			os.WriteFile(cur, cb, 0o644)
+		}
 		viols, classes := runCase(cs)
+		if cur != "" {
+			os.Remove(cur)
+		}
 		b, _ := json.Marshal(cs)
 		kinds := map[string]bool{}
 		special := false
